@@ -122,6 +122,8 @@ def _history(ops, a_texts, io_text, b_text, b_first, restore=None):
                 f = get(op[1])
                 random.seed(op[2])
                 kw = {} if op[6] is None else {"max_nodes": op[6]}
+                if len(op) > 7 and op[7] is not None:
+                    kw["max_repetitions"] = op[7]
                 sols = f.fuzz(desired_solutions=op[3], max_generations=op[4], population_size=op[5], random_seed=op[2], **kw)
                 log.append(("fuzz", len(sols), nodes.MAX_REPETITIONS))
             elif kind == "parse":
@@ -158,15 +160,22 @@ def run(run: Run) -> None:
     b = S.gen_searchspec(ch, dict(cfg.get("spec", {}), raising_rate=0.0, generators=False, max_h=4, max_r=1, inexact_pair_rate=0.0, body_rules=2))
     b_text = b.to_fan()
     n_a = ch.rng_range(1, 2, "spec", "n_a")
+    shadowing = False
     a_texts = []
     for i in range(n_a):
         a = S.gen_searchspec(ch, dict(cfg.get("spec", {}), raising_rate=0.0, generators=False, max_h=2, max_r=1, inexact_pair_rate=0.0, body_rules=2))
         if ch.coin(0.7, "spec", "stagnate"):
             a.constraints.append("where int(<fa>) > 5000")  # unsatisfiable: the search stagnates, the tuner adapts
+        if ch.coin(0.4, "spec", "a-shadows-builtin"):
+            # A's own Python part redefines a name that B only knows as a builtin
+            a.py_prelude = list(getattr(a, "py_prelude", [])) + [ch.pick(["def int(x=0, *a):\n    return 7", "def str(x=''):\n    return 'zz'", "def len(x):\n    return 1", "def all(xs):\n    return False"], "spec", "a-shadow")]
+            shadowing = True
         a_texts.append(a.to_fan())
     io = P.gen_protocol(Choices(ch.seed + 17, ch.spec_seed + 17), {})
     io_text = io.to_fan()
     run.event("specs", b_text, a_texts)
+    if shadowing:
+        run.probe("history_spec_shadows_builtin")
     for t_ in [b_text, io_text] + a_texts:
         prewarm(t_)
     # ---- B's fixed workload ---------------------------------------------------------------
@@ -184,7 +193,7 @@ def run(run: Run) -> None:
         if k == 0:
             ops.append(("create", i))
         elif k == 1:
-            ops.append(("fuzz", i, 1 + ch.draw(1000, "sched", "a-seed"), ch.rng_range(1, 4, "sched", "a-n"), ch.pick([6, 2, 12], "sched", "a-gens"), ch.pick([6, 3, 12], "sched", "a-pop"), ch.pick([None, 8, 20, 300], "sched", "a-max-nodes")))
+            ops.append(("fuzz", i, 1 + ch.draw(1000, "sched", "a-seed"), ch.rng_range(1, 4, "sched", "a-n"), ch.pick([6, 2, 12], "sched", "a-gens"), ch.pick([6, 3, 12], "sched", "a-pop"), ch.pick([None, 8, 20, 300], "sched", "a-max-nodes"), ch.pick([None, None, None, 2, 5, 40], "sched", "a-max-repetitions")))
         elif k == 2:
             ops.append(("parse", i, "12:3:ab:|" + ch.pick(["", "x", "1=a;"], "sched", "a-word")))
         elif k == 3:
@@ -249,6 +258,10 @@ def run(run: Run) -> None:
             alt = _in_child(lambda name=name: test(restore=name))
             if alt[0] == "ok" and alt[1]["solutions"] == ref["solutions"] and alt[1]["parses"] == ref["parses"]:
                 channel = name
+                if name == "nodes.MAX_REPETITIONS":
+                    # which way the history moved the process-wide cap (20 when pristine)
+                    v = tst["obs"]["nodes.MAX_REPETITIONS"]
+                    channel += ":raised" if v > 20 else (":lowered" if v < 20 else ":restored-to-default")
                 break
         run.violation(
             "C18",
